@@ -24,6 +24,8 @@ import (
 	"sort"
 	"sync"
 	"time"
+
+	"github.com/versity/versitygw/internal/verifhook"
 )
 
 const (
@@ -343,6 +345,7 @@ func (s *IAMServiceInternal) storeIAM(update UpdateAcctFunc) error {
 			return fmt.Errorf("remove old iam file: %w", err)
 		}
 
+		verifhook.Point("iam.afterRemove")
 		// save copy of data
 		datacopy := make([]byte, len(b))
 		copy(datacopy, b)
@@ -354,6 +357,7 @@ func (s *IAMServiceInternal) storeIAM(update UpdateAcctFunc) error {
 		// gateway will successfully remove the file.
 		os.WriteFile(filepath.Join(s.dir, iamBackupFile), b, iamMode)
 
+		verifhook.Point("iam.afterBackup")
 		b, err = update(b)
 		if err != nil {
 			// update failed, try to write old data back out
@@ -388,6 +392,7 @@ func (s *IAMServiceInternal) writeTempFile(b []byte) error {
 		return fmt.Errorf("write temp file: %w", err)
 	}
 
+	verifhook.Point("iam.beforeRename")
 	err = os.Rename(f.Name(), fname)
 	if err != nil {
 		return fmt.Errorf("rename temp file: %w", err)
